@@ -23,5 +23,8 @@ Example C09_witness :
   (* template "x{}y{}{" with the path "a b" ; -execdir on "d/e f" *)
   render [120; 123; 125; 121; 123; 125; 123] [97; 32; 98] = [120; 97; 32; 98; 121; 97; 32; 98; 123] /\
   exec_path true [100; 47; 101; 32; 102] = [46; 47; 101; 32; 102] /\ exec_cwd true [100; 47; 101; 32; 102] = Some [100] /\
-  exec_cwd true [102] = None.
+  exec_cwd true [102] = None /\
+  (* a/.. : named ./.. from the directory a ; / : run from / and named / *)
+  exec_path true [97; 47; 46; 46] = [46; 47; 46; 46] /\ exec_cwd true [97; 47; 46; 46] = Some [97] /\
+  exec_path true [47] = [47] /\ exec_cwd true [47] = Some [47].
 Proof. vm_compute. repeat split. Qed.
